@@ -46,7 +46,7 @@ MOD = "mcverif.checks.c04"
 # (each operation at most once per history).
 LEVELS = {
     "quick": {"hex3pins": ["FULL", "SUB2"], "hexfullcu": ["FULL"], "cartq": ["FULL", "SUB2"], "cartfull": ["FULL"], "trz": ["FULL"], "hexmany": ["SUB3"]},
-    "thorough": {"hex3pins": ["FULL", "FULL", "SUB3"], "hexfullcu": ["FULL", "FULL"], "cartq": ["FULL", "FULL"], "cartfull": ["FULL", "FULL"], "trz": ["FULL", "FULL"], "hexmany": ["FULL", "SUB3"]},
+    "thorough": {"hex3pins": ["FULL", "FULL", "SUB3"], "hexfullcu": ["FULL", "SUB2"], "cartq": ["FULL", "FULL"], "cartfull": ["FULL", "SUB2"], "trz": ["FULL", "FULL"], "hexmany": ["FULL", "SUB3"]},
 }
 MAX_STATES = {"quick": None, "thorough": None}
 
@@ -386,13 +386,36 @@ def _count(d):
 # explorer plumbing
 
 
+def _raised_file():
+    return os.path.join(env.run_root(), "c04_mutation_raised.jsonl")
+
+
+def _note_raised(init, hist, exc):
+    import json
+
+    with open(_raised_file(), "a") as f:
+        f.write(json.dumps({"family": init["family"], "history": hist, "exception": "%s: %s" % (type(exc).__name__, str(exc)[:160])}) + "\n")
+
+
 def expand(item):
     _restore_masks()
     init = item["init"]
     r, cs, bp, tg = ops.build_state(init)
     out = "ok"
     for k, op in enumerate(item["hist"]):
-        out = ops.apply(r, cs, tg, op)
+        try:
+            out = ops.apply(r, cs, tg, op)
+        except ops.AlphabetError:
+            raise
+        except Exception as e:
+            # The MUTATION itself raised (e.g. Assembly.moveTo scaling a dict-valued volume-integrated
+            # parameter). That is not the database round trip C04 is about: the history is recorded
+            # as outcome raised:<Exc>, not judged and not extended. Only write/load/compare decide C04.
+            out = "raised:%s" % type(e).__name__
+            if k < len(item["hist"]) - 1:
+                raise RuntimeError("prefix replay diverged: operation %d of %s raised %r" % (k, item["hist"], e))
+            _note_raised(init, item["hist"], e)
+            return {"canon": "raised:%s" % item["hist"], "full": None, "viols": [], "ops": [], "out": out, "terminal": True, "suppressed": {}, "nodes": 0}
         if k < len(item["outs"]) and out != item["outs"][k]:
             raise RuntimeError("prefix replay diverged at %d: %s != %s" % (k, out, item["outs"][k]))
     try:
@@ -501,6 +524,8 @@ def selftest():
 
 def run(ctx):
     tier = "quick" if ctx.quick else "thorough"
+    if os.path.exists(_raised_file()):
+        os.remove(_raised_file())
     ctx.count("selftest_perturbations_detected", selftest())
     inits = [{"family": f, "seed": ctx.seed} for f in ops.FAMILIES]
     # pre-pass: the initial states. Violation classes already present there are reported from there
@@ -522,6 +547,16 @@ def run(ctx):
         ctx.count("op_" + o, n)
     for o, n in st["outcomes"].items():
         ctx.count("outcome_" + o, n)
+    raised = []
+    if os.path.exists(_raised_file()):
+        import json
+
+        with open(_raised_file()) as f:
+            raised = [json.loads(l) for l in f if l.strip()]
+    ctx.count("mutation_raised", len(raised))
+    ctx.coverage["mutation_raised"] = raised[:40]
+    if raised:
+        ctx.notes.append("%d histories end in a mutation operation that itself raises (listed under mutation_raised; not judged, not extended). Whether e.g. Assembly.moveTo should cope with list/dict-valued volume-integrated block parameters is outside C04's statement." % len(raised))
     explore.finish(ctx, total, extra={"levels": LEVELS[tier], "families": list(ops.FAMILIES), "alphabet_size": {f: {n: len(ops.alphabet({"family": f, "levels": [n]})) for n in ("FULL", "SUB2", "SUB3")} for f in ops.FAMILIES}})
     ctx.coverage["database_round_trips"] = 5 * (total.get("traces", 0) + len(roots))
     ctx.coverage["exhaustive"] = True  # every history within the stated level alphabets was executed
